@@ -1,8 +1,21 @@
-(* C12 - calls bind arguments, isolate activations and resume the caller intact. Property theorems only (proofs in proofs/VMStepProofs.v): machine-level statements about Call / Return / ReturnValue for EVERY machine state and program. *)
-From NL.Model Require Import VM.
-From NL.Proofs Require VMStepProofs.
+(* C12 - calls bind arguments, isolate activations and resume the caller intact. Property theorems only. SOURCE level (proofs/CompileCorrectE.v ... I.v, fragment F3: scalar and function values): calls evaluate their arguments left to right then the callee, bind by position, run in a fresh activation, and return to a caller whose variables and pending operands are intact - by simulation against the definitional semantics, recursion and first-class functions included. MACHINE level (proofs/VMStepProofs.v): Call / Return / ReturnValue for EVERY machine state and program. *)
+From NL.Model Require Import VM Pipeline.
+From NL.Spec Require Import Sem Fragment3.
+From NL.Proofs Require VMStepProofs CompileCorrectI.
 Import VMStepProofs.
 Open Scope Z_scope.
+
+(* source level, whole programs of fragment F3: direct, mutual (through variables) and deep recursion within the machine's limits, functions stored, passed and returned, calls nested in expressions and argument lists *)
+Theorem compile_correct_F3 : forall (orc : oracle) (p : block), in_F3 p = true -> ends_expr p = true -> forall bc : bytecode, compile p = Ok bc -> forall fuel : nat, (size3_b p <= fuel)%nat -> sem_program orc fuel p <> SemFuel -> (forall out : text, sem_program orc fuel p <> SemError EArgumentError out) -> (exists budget : nat, obs_eq3 (run_program orc bc budget) (sem_program orc fuel p)) \/ hits_excluded orc bc.
+Proof. exact CompileCorrectI.compile_correct_F3. Qed.
+
+(* arguments are evaluated left to right, then the callee, on both sides of the simulation *)
+Theorem args_left_to_right : forall (orc : oracle) (f : nat) (c : dctx) (st : cstate) (fn : expr) (args : list expr) (sst : sstate) (y : CompileCorrectE.yst), is_builtin_callee fn = false -> eval_expr orc (S f) c (ECall fn args) sst = (rdo (vs, s1)<- CompileCorrectG.sem_list orc f c args sst; rdo (fv, s2)<- eval_expr orc f c fn s1; CompileCorrectG.sem_call orc f fv vs s2) /\ (forall (x : expr) (r : list expr) (s : sstate), CompileCorrectG.sem_list orc f c (x :: r) s = (rdo (v, s1)<- eval_expr orc f c x s; rdo (vs, s2)<- CompileCorrectG.sem_list orc f c r s1; ROk (v :: vs) s2)) /\ CompileCorrectE.yeval orc (S f) st (ECall fn args) y = CompileCorrectE.ybind (CompileCorrectE.yargs orc f st args y) (fun (vs : list val) (y1 : CompileCorrectE.yst) => match CompilerNames.compile_exprs args st with | Ok st1 => CompileCorrectE.ybind (CompileCorrectE.yeval orc f st1 fn y1) (fun (fv : val) (y2 : CompileCorrectE.yst) => CompileCorrectE.ycall orc f fv vs y2) | _ => CompileCorrectE.YFault FUnwrap end) /\ (forall (x : expr) (r : list expr) (st0 : cstate) (y0 : CompileCorrectE.yst), CompileCorrectE.yargs orc f st0 (x :: r) y0 = CompileCorrectE.ybind (CompileCorrectE.yeval orc f st0 x y0) (fun (v : val) (y1 : CompileCorrectE.yst) => match compile_expression x st0 with | Ok st1 => CompileCorrectE.ybind (CompileCorrectE.yargs orc f st1 r y1) (fun (vs : list val) (y2 : CompileCorrectE.yst) => CompileCorrectE.YOk (v :: vs) y2) | _ => CompileCorrectE.YFault FUnwrap end)) /\ CompileCorrectF.esim orc (ECall fn args).
+Proof. exact CompileCorrectI.args_left_to_right. Qed.
+
+(* after a call returns, the caller's environment and everything older in the store are unchanged (frame), and the simulation relation holds again *)
+Theorem caller_intact : forall (orc : oracle) (p : block) (st1 : cstate), in_F3 p = true -> compile_statements p compiler_new = Ok st1 -> forall (f : nat) (E : CompileCorrectG.cenv) (F : list CompileCorrectE.fentry) (sst : sstate) (y : CompileCorrectE.yst) (fv fv' : val) (vs vs' : list val) (v : val) (sst' : sstate), CompileCorrectG.Rel3 (CompileCorrectH.lits p) E F sst y -> CompileCorrectG.vrel F fv fv' -> Forall2 (CompileCorrectG.vrel F) vs vs' -> CompileCorrectG.sem_call orc f fv vs sst = ROk v sst' -> match CompileCorrectE.ycall orc f fv' vs' y with | CompileCorrectE.YOk v' y' => CompileCorrectE.y_loc y' = CompileCorrectE.y_loc y /\ (exists X : list CompileCorrectE.fentry, CompileCorrectG.vrel (F ++ X) v v' /\ CompileCorrectG.Rel3 (CompileCorrectH.lits p) E (F ++ X) sst' y' /\ CompileCorrectG.frame E sst sst') | CompileCorrectE.YExcl => True | _ => False end.
+Proof. exact CompileCorrectI.caller_intact. Qed.
 
 (* a call pops the function value, keeps the arguments as the first locals, pads the remaining locals with null, saves the return address and the caller's base pointer *)
 Theorem call_frame : forall (orc : oracle) (prog : program) (s : vm) (argc ip n : Z) (args_rev rest : list val) (cur : frame) (frs : list frame) (r : list Z), VMStepProofs.code_at prog (v_ip s) (byte_of_opcode OCall :: argc :: r) -> v_stack s = VFun ip n :: args_rev ++ rest -> v_slen s = zlength (v_stack s) -> zlength args_rev = argc -> argc <= n -> v_slen s - 1 + n <= MAX_STACK_SIZE -> v_frames s = cur :: frs -> zlength (v_frames s) < MAX_FRAMES -> step orc prog s = Ok (Continue (VMStepProofs.called s ip n argc args_rev rest cur frs)).
@@ -61,6 +74,9 @@ Theorem step_preserves_wf : forall (orc : oracle) (prog : program) (s : vm) (r :
 Proof. exact VMStepProofs.step_preserves_wf. Qed.
 
 
+Print Assumptions compile_correct_F3.
+Print Assumptions args_left_to_right.
+Print Assumptions caller_intact.
 Print Assumptions call_frame.
 Print Assumptions call_binds_by_position.
 Print Assumptions call_pads_with_null.
